@@ -959,6 +959,19 @@ func c08Parse(c *Ctx, f *ssa.Function) {
 		}
 	}
 	c.check(okSplit, "C08.parse.reader", f, "default split function (ScanLines), scanner not shared", nil, "only Buffer/Scan/Bytes/Err are called on the scanner")
+	// the line limit: Buffer(buf, max) with max at least bufio.MaxScanTokenSize —
+	// a smaller limit turns the longest lines the reference accepts into a
+	// scanner error that drops them and everything behind them
+	for _, r := range core.Refs(scanner) {
+		if call, ok := r.(*ssa.Call); ok && core.CalleeName(&call.Call) == "(*bufio.Scanner).Buffer" && len(call.Call.Args) == 3 {
+			k, isK := core.ConstInt(call.Call.Args[2])
+			if !isK {
+				c.undecided("C08.parse.reader", f, "scanner line limit", call, "the limit handed to Scanner.Buffer is not a constant")
+				continue
+			}
+			c.check(k >= 64*1024, "C08.parse.reader", f, "scanner line limit >= bufio.MaxScanTokenSize", call, sprintf("limit %d: a well-formed line of up to MaxScanTokenSize-1 bytes must be delivered", k))
+		}
+	}
 
 	// events
 	isAdd := func(in ssa.Instruction) bool {
@@ -1117,6 +1130,26 @@ func c08Parse(c *Ctx, f *ssa.Function) {
 			}
 		})
 		c.check(okApp, "C08.parse.errors", f, "default handler appends the error to errs", nil, "errors are collected in call (= line) order")
+		// ... on every path: a collector that stops at some count, or skips
+		// some kinds of error, leaves ill-formed lines unreported
+		if okApp {
+			isApp := func(in ssa.Instruction) bool {
+				call, ok := in.(*ssa.Call)
+				if !ok {
+					return false
+				}
+				b, isB := call.Call.Value.(*ssa.Builtin)
+				return isB && b.Name() == "append" && variadicHas(call.Call.Args[1], af.Params[2])
+			}
+			okEvery := true
+			for _, ret := range core.Returns(af) {
+				mn, mx, reach := core.CountOnPaths(af, nil, ret, isApp)
+				if reach && (mn != 1 || mx != 1) {
+					okEvery = false
+				}
+			}
+			c.check(okEvery, "C08.parse.errors", f, "default handler appends exactly once on every path", nil, "every ill-formed line is reported exactly once, however many there are")
+		}
 	}
 	okJoin, okScanErr := false, false
 	for _, ret := range core.Returns(f) {
@@ -1370,6 +1403,52 @@ func c08StorageAdd(c *Ctx, f *ssa.Function) {
 	})
 	if nw == 0 {
 		c.check(true, "C08.storage.nameless", f, "no storage write outside the loop over rec.Names", nil, "a record without names runs zero iterations")
+	}
+	// every record with names is indexed: a return that can be reached without
+	// entering the loop over rec.Names happens only for a record without names
+	// (a "seen before" shortcut keyed on one of the names drops the others)
+	{
+		var head *ssa.BasicBlock
+		for h := range core.LoopHeads(f) {
+			if b := core.LoopBody(h); loopBody[h] && len(b) == len(loopBody) {
+				head = h
+			}
+		}
+		bad := ""
+		var at ssa.Instruction
+		if head != nil {
+			seen := map[*ssa.BasicBlock]bool{head: true}
+			var dfs func(b *ssa.BasicBlock)
+			dfs = func(b *ssa.BasicBlock) {
+				if seen[b] {
+					return
+				}
+				seen[b] = true
+				if ret, isRet := b.Instrs[len(b.Instrs)-1].(*ssa.Return); isRet {
+					okG := false
+					for _, g := range core.Facts(f).At(b) {
+						if v, isZero, ok := core.ZeroTest(g.Cond, g.Truth); ok && isZero {
+							if call, ok := v.(*ssa.Call); ok {
+								if bi, ok := call.Call.Value.(*ssa.Builtin); ok && bi.Name() == "len" && namesLoad(call.Call.Args[0]) {
+									okG = true
+								}
+							}
+						}
+					}
+					if !okG && bad == "" {
+						bad, at = "a return is reachable without the loop over rec.Names for a record that has names", ret
+					}
+				}
+				for _, sb := range b.Succs {
+					dfs(sb)
+				}
+			}
+			dfs(f.Blocks[0])
+		} else {
+			bad = "loop head not found"
+		}
+		c.L.Floor("C08.storage.every-record", 1)
+		c.check(bad == "", "C08.storage.every-record", f, "every record with names reaches the loop that indexes them", at, "all names of every record are indexed, whatever was added before: "+bad)
 	}
 	// R4: per iteration one names.add(k, name), one addrs.add(addr, addr)
 	var adds []*ssa.Call
